@@ -142,14 +142,19 @@ def analyzeChunk (d : DType) (fl : Flags) (level : Nat) (c : DChunk) (vals : Lis
   let counts := ps.map (·.count)
   let codes := ps.map (·.code)
   let huffOk (ws : List Nat) : Bool := weightedLen ws codes == huffCostW ws
-  let huffopt :=
+  -- (huffopt, matched weight E of the run-length prefix, its code length, "heavy": others < 2E — the hypotheses of
+  -- C18s.sparse_body_bound / c14_sparse; for tables without a run-length prefix E = 0, jlen = 0, heavy = true)
+  let (huffopt, huffE, jlen, heavy) :=
     match ps.findIdx? (·.jump.isSome) with
-    | none => huffOk counts
+    | none => (huffOk counts, 0, 0, true)
     | some i =>
       let cnt := counts.getD i 0
       let n := us.length
       let ex := if n == 0 then 0 else (cnt * (n - cnt) + n - 1) / n
-      [ex - 1, ex, ex + 1].any fun w => huffOk (counts.set i w)
+      let jl := ((ps.getD i default).code).length
+      match [ex, ex + 1, ex - 1].find? fun w => huffOk (counts.set i w) with
+      | some w => (true, w, jl, decide (n - cnt < 2 * w))
+      | none => (false, 0, jl, false)
   let tags := String.intercalate "," (
     (if jumps > 0 then ["runlen"] else []) ++
     (if ps.any (fun p => p.gcd > 1 && p.lower < p.upper) then ["gcd"] else []) ++
@@ -167,7 +172,7 @@ def analyzeChunk (d : DType) (fl : Flags) (level : Nat) (c : DChunk) (vals : Lis
     s!"bodybits={bodyB} bodybytes={c.cm.bodyBytes} nprefs={ps.length} maxcode={maxcode} W={W} nus={us.length} " ++
     s!"metabits={(encChunkMeta gbFloat d fl c.cm).length + 8} prefbits={(ps.map fun p => (encPrefix gbFloat (prefDType d fl) fl c.cm.n (!fl.gcds || c.cm.commonGcd.isSome) p).length).foldl max 0} " ++
     s!"explains={(Train.explainsWhy (us.mergeSort (· ≤ ·)) level fl.gcds c.cm.commonGcd.isSome gbFloat ps).replace " " "_"} " ++
-    s!"huffopt={b01 huffopt} dom={domCount} runs={runs} others={others} domjump={b01 domJump} allequal={b01 (us.all (· == us.headD 0))} tags={tags}"
+    s!"huffopt={b01 huffopt} huffE={huffE} jlen={jlen} heavy={b01 heavy} dom={domCount} runs={runs} others={others} domjump={b01 domJump} allequal={b01 (us.all (· == us.headD 0))} tags={tags}"
   (str, blocks.map fun bs => { cm := c.cm, blocks := bs })
 
 def cmdEnc (args : List String) : String :=
